@@ -483,6 +483,10 @@ class OperandNotBound(Exception):
     pass
 
 
+class SwallowedCast(Exception):
+    pass
+
+
 def interpret_hlo(hlo: Any, il: Any, val_of: Any) -> np.ndarray:
     import pytato as pt
     from pytato import raising as r
@@ -505,6 +509,11 @@ def interpret_hlo(hlo: Any, il: Any, val_of: Any) -> np.ndarray:
             res = np.where(v(hlo.condition), v(hlo.then), v(hlo.else_))
         elif isinstance(hlo, r.BroadcastOp):
             res = np.broadcast_to(v(hlo.x), shape)
+            if np.asarray(res).dtype != il.dtype:
+                # pure data movement cannot change the dtype: the lambda does more than
+                # broadcast (a cast was read as a broadcast)
+                raise SwallowedCast(f"BroadcastOp of a {np.asarray(res).dtype} operand for a "
+                                    f"lambda of dtype {il.dtype}")
         elif isinstance(hlo, r.LogicalNotOp):
             res = np.logical_not(v(hlo.x))
         elif isinstance(hlo, r.ReduceOp):
@@ -606,6 +615,11 @@ def check_case(case: dict[str, Any], col: common.Collector) -> None:
     col.histo("outcome", type(hlo).__name__)
     try:
         got = interpret_hlo(hlo, il, rev)
+    except SwallowedCast as e:
+        col.violation(f"C19:misread:{cell}:BroadcastOp-swallows-cast", str(e),
+                      {"case": case, "expr": str(il.expr), "hlo": repr(hlo)[:300]})
+        col.case()
+        return
     except OperandNotBound as e:
         col.violation(f"C19:operand-not-a-binding:{cell}",
                       f"HighLevelOp names an operand that is not one of the bindings: {e}",
